@@ -17,8 +17,10 @@ THEOREMS = ['C11_table_roundtrip', 'C11_token_numbering_injective', 'C11_memo_ro
             'C11_load_rejects', 'C11_standalone_partial', 'C11_flags_list_changes_unless_test',
             'C11_flags_test_preserved', 'C11_wf_check_sound', 'C11_example',
             'C11_standalone_same_program', 'C11_standalone_generated_module', 'C11_standalone_closed',
-            'C11_standalone_closed_spec', 'C11_standalone_ordered', 'C11_standalone_ordered_spec']
-GEN_DEPS = ['SerializeFields', 'Standalone']
+            'C11_standalone_closed_spec', 'C11_standalone_ordered', 'C11_standalone_ordered_spec',
+            'C11_standalone_name_resolution_sound', 'C11_standalone_no_name_error', 'C11_standalone_client_runs_reached',
+            'C11_standalone_cache_grammar_refuted', 'C11_standalone_units_example']
+GEN_DEPS = ['SerializeFields', 'Standalone', 'StandaloneUnits']
 RULE = ('fixed corpus of LALR grammars (imports from common.lark, templates, rule/terminal priorities, 120 terminals, '
         'regex and string flags, bytes mode, placeholders, aliases/inlining, several start symbols, lark.lark) plus '
         'seeded random grammars, each under sampled options {lexer basic/contextual, keep_all_tokens, '
@@ -36,7 +38,11 @@ TRUSTED_BASE = ['pickle / repr+Python parser / zlib / base64 as exact codecs of 
                 '_deserialize_lexer_conf, LarkOptions.__init__ loop; lists, tags and defaults are regenerated',
                 'stand-alone program part: the Python evaluator is a Section parameter with the locality hypothesis (a run depends '
                 'only on the definitions reachable from the entry point through global-name references); translator/'
-                'gen_standalone.py executes the tool\'s own extract_sections / strip_docstrings and analyses with ast + symtable']
+                'gen_standalone.py executes the tool\'s own extract_sections / strip_docstrings and analyses with ast + symtable',
+                'stand-alone name resolution (round 12): Ser/NameRes.v is the evaluator model for "is a global name bound when it is '
+                'looked up"; trusted: the syntactic position classification of translator/gen_saunits.py, name-based attribute '
+                'resolution as over-approximation of dynamic dispatch, declared sa_not_run = [create_lalr_parser] and '
+                'sa_unsupported_attrs (validated by the call trace of the real generated modules against sa_reached)']
 ASSUMPTIONS = ['memo keys identify objects inside one instance: rules are distinct by (origin, expansion), terminals '
                'by name (checked on every exported instance by inst_wf_b)',
                'cache_grammar (Grammar object in the saved data), custom lexer classes and postlexers are outside the model',
@@ -172,12 +178,22 @@ def main():
             assert 'lark' not in sys.modules, 'the stand-alone module imported lark'
             spec = importlib.util.spec_from_file_location(j['name'], j['path'])
             mod = importlib.util.module_from_spec(spec)
+            called = set()
+            mpath = j['path']
+            def prof(frame, event, arg, called=called, mpath=mpath):
+                if event == 'call' and frame.f_code.co_filename == mpath:
+                    called.add((frame.f_code.co_qualname, frame.f_code.co_firstlineno))
             spec.loader.exec_module(mod)
             assert 'lark' not in sys.modules, 'the stand-alone module imported lark'
-            p = mod.Lark_StandAlone(**j['kw'])
-            wit = obs_witnesses(mod, p, j['wit'][0], j['wit'][1]) if j.get('wit') else None
-            out.append({'ok': True, 'res': observe(p, j['probes']), 'rules': len(p.rules), 'terminals': len(p.terminals),
-                        'wit': wit})
+            sys.setprofile(prof)
+            try:
+                p = mod.Lark_StandAlone(**j['kw'])
+                wit = obs_witnesses(mod, p, j['wit'][0], j['wit'][1]) if j.get('wit') else None
+                res = observe(p, j['probes'])
+            finally:
+                sys.setprofile(None)
+            out.append({'ok': True, 'res': res, 'rules': len(p.rules), 'terminals': len(p.terminals),
+                        'wit': wit, 'called': sorted(called)})
         except Exception as e:
             import traceback
             out.append({'ok': False, 'err': traceback.format_exc()[-1500:]})
@@ -663,6 +679,84 @@ def check_standalone_program(ctx, sa_jobs):
                           False, 'definitions of the generated module differ from the sources: %s' % drift[:6])
 
 
+# ----------------------------------------------------------------------------------------------- name-resolution tie
+def unit_key_of(qualname):
+    """code object of the generated module -> unit key of Gen/StandaloneUnits.v (nested functions, lambdas and
+    comprehensions belong to the unit of the enclosing top-level function / method)"""
+    parts = qualname.split('.<locals>')[0].split('.')
+    parts = [x for x in parts if not x.startswith('<')]
+    return '.'.join(parts[:2]) if parts else None
+
+
+def check_called_units(ctx, sa_jobs, res):
+    """every function / method the real generated modules called during Lark_StandAlone(...), parse, parse_interactive,
+    scan and the transformer witnesses must be a unit the machine of Ser/NameRes.v can reach from the client
+    (C11_standalone_client_runs_reached); Coq evaluates the membership (check_called over sa_reached)"""
+    cases, tags = [], []
+    for j, r in zip(sa_jobs, res):
+        if not r or not r.get('ok') or r.get('called') is None:
+            continue
+        keys = sorted({k for k in (unit_key_of(q) for q, _ in r['called']) if k})
+        cases.append(lib.coq_list([lib.coq_term_str(k) for k in keys]))
+        tags.append((j['name'], keys))
+        ctx.count('standalone-called-units', key=j['name'], nontrivial=len(keys) > 40, units=len(keys))
+    if not cases:
+        return
+    bad, errs = ctx.coq_bad_indices('c11_called', 'From LV Require Import Ser.NameRes Ser.NameResInstance.', 'check_called',
+                                    cases, chunk=50)
+    for e in errs:
+        ctx.violation('correspondence:coq-eval', {'no_longer_checks': 'called units in sa_reached', 'error': e[:300]}, False, e[:300])
+    for i in bad:
+        name, keys = tags[i]
+        out = ctx.coq_eval('c11_called_which', 'From Coq Require Import List String Bool.\nFrom LV Require Import Ser.StandaloneModel '
+                           'Ser.NameRes Ser.NameResInstance.', 'filter (fun k => negb (mem k sa_reached)) %s'
+                           % lib.coq_list([lib.coq_term_str(k) for k in keys]))
+        ctx.violation('correspondence:standalone-called-units',
+                      {'no_longer_checks': 'the name-resolution model covers the functions the generated module really calls',
+                       'module': name, 'not_in_model_closure': str(out)[:400]}, False,
+                      'the generated module %s called functions the name-resolution model does not reach: %s' % (name, str(out)[:300]))
+
+
+def cache_grammar_regression(ctx):
+    """F53 (repaired): gen_standalone of an instance built with cache_grammar=True must parse like the original, plain
+    and compressed (C11_standalone_cache_grammar_refuted is the model of the old generator)"""
+    import lark
+    from lark.tools import standalone
+    g = G_JSON
+    probes = [['parse', '{"a": [1, 2, {"b": null}], "c": "x"}', 'start'], ['parse', '[1, 2', 'start'],
+              ['interactive', '[1, "a", true]', 'start']]
+    cpath = os.path.join(ctx.scratch, 'cg_cache.bin')
+    try:
+        L = lark.Lark(g, parser='lalr', cache=cpath, cache_grammar=True)
+    except Exception as e:
+        ctx.note('cache_grammar regression skipped: %s' % e)
+        return
+    ref = jsonable(observe(L, probes))
+    jobs = []
+    for compress in (False, True):
+        op = os.path.join(ctx.scratch, 'cg_%d.py' % compress)
+        with open(op, 'w') as f:
+            standalone.gen_standalone(L, out=f, compress=compress)
+        jobs.append({'name': 'sa_cg_%d' % compress, 'path': op, 'kw': {}, 'probes': probes, 'wit': None})
+    runner = os.path.join(ctx.scratch, 'sa_runner.py')
+    open(runner, 'w').write(RUNNER_SRC)
+    clean = {k: v for k, v in os.environ.items() if k not in ('PYTHONPATH',)}
+    clean['PYTHONHASHSEED'] = os.environ.get('PYTHONHASHSEED', '0')
+    r = subprocess.run([sys.executable, '-I', '-S', runner], input=json.dumps(jobs), env=clean, stdout=subprocess.PIPE,
+                       stderr=subprocess.PIPE, text=True, timeout=300, cwd=ctx.scratch)
+    outs = json.loads(r.stdout) if r.returncode == 0 else [{'ok': False, 'err': r.stderr[-600:]}] * 2
+    for compress, o in zip((False, True), outs):
+        ctx.count('standalone-cache-grammar', key=compress, nontrivial=True)
+        if not o.get('ok') or o['res'] != ref:
+            ctx.violation('differential:standalone-cache-grammar',
+                          {'grammar_name': 'json', 'grammar': g, 'options': {'cache_grammar': True, 'cache': True},
+                           'variant': 'standalone-cache-grammar', 'compress': compress,
+                           'probe': probes[0], 'error': (o.get('err') or '')[-400:], 'expected': ref[0],
+                           'observed': (o.get('res') or [None])[0]}, True,
+                          'stand-alone module generated from a cache_grammar=True instance differs from the original '
+                          '(NameError Grammar in Lark._load?)')
+
+
 # ----------------------------------------------------------------------------------------------- comparison
 def jsonable(x):
     return json.loads(json.dumps(x))
@@ -1128,6 +1222,9 @@ def correspond(ctx):
                                   'transformer chain / non-recursive transformer / Token(type_=) / lexer_state behave differently '
                                   'in the generated module (a name its header does not provide?)')
 
+        check_called_units(ctx, sa_jobs, res)
+        cache_grammar_regression(ctx)
+
     # Coq evaluation
     if coq_jobs:
         for tag, bad, err in run_coq_jobs(ctx, coq_jobs):
@@ -1235,6 +1332,13 @@ def replay(ctx, case):
         try:
             cache_shared_path_stream(c2)
             return any(v['stage'] == 'differential:cache-shared-path' for v in c2.violations)
+        finally:
+            c2.cleanup()
+    if w.get('variant') == 'standalone-cache-grammar':
+        c2 = type(ctx)(ctx.prop, ctx.tier, ctx.seed)
+        try:
+            cache_grammar_regression(c2)
+            return any(v['stage'] == 'differential:standalone-cache-grammar' for v in c2.violations)
         finally:
             c2.cleanup()
     if 'grammar' not in w or 'variant' not in w:
